@@ -46,8 +46,8 @@ def _lean_expr(node, rename):
         return str(node.value)
     if isinstance(node, ast.BinOp) and type(node.op) in _BIN:
         return f'({_lean_expr(node.left, rename)} {_BIN[type(node.op)]} {_lean_expr(node.right, rename)})'
-    if isinstance(node, ast.Call):
-        # the measured quantity (np.abs(np.diag(lu(..)[2])).min()) is the model's input `m`
+    if isinstance(node, (ast.Call, ast.Subscript, ast.Attribute)) and '<call>' in rename:
+        # the measured quantity (np.abs(np.diag(lu(..)[2])).min(), eigvalsh(..)[0], …) is the model's input `m`
         return rename['<call>']
     raise Untranslatable(ast.dump(node))
 
@@ -828,6 +828,23 @@ def _planted_bipartite(rng, dA, dB, N, low_rank, cplx):
     return q.reshape(N, dA, dB), planted
 
 
+def _abc_gram(np_list, k):
+    """the matrix handed to scipy.linalg.lu by is_ABC_completely_entangled_subspace (captured in-process)"""
+    import scipy.linalg
+    from numqi.matrix_space import is_ABC_completely_entangled_subspace
+    cap = []
+    lu0 = scipy.linalg.lu
+
+    def rec(a, *args, **kw):
+        cap.append(np.array(a)); return lu0(a, *args, **kw)
+    with patched((scipy.linalg, 'lu', rec)):
+        try:
+            is_ABC_completely_entangled_subspace(np_list, hierarchy_k=k)
+        except Exception:
+            return None
+    return cap[-1] if cap else None
+
+
 def probe_planted(ctx):
     from numqi.matrix_space import has_rank_hierarchical_method, detect_real_matrix_subspace_rank_one, is_ABC_completely_entangled_subspace, get_matrix_subspace_example
     rng = np.random.default_rng(ctx.np_seed + 11)
@@ -847,7 +864,13 @@ def probe_planted(ctx):
                 except Exception as e:
                     ctx.fail('hierarchy-exception', f'has_rank_hierarchical_method raised {type(e).__name__}: {e}', replay); continue
                 if res:
-                    ctx.fail('hierarchy-unsound', f'has_rank_hierarchical_method(rank={rank}, k={k}) certifies a {dA}x{dB} subspace (dim {N}, {"complex" if cplx else "real"}) containing an element of rank {rank - 1}', replay)
+                    # is the linear system itself wrong, or only the decision on a (numerically) singular Gram matrix?
+                    sv = np.linalg.svd(has_rank_hierarchical_method(basis, rank, hierarchy_k=k, return_info=True)[1], compute_uv=False)
+                    lu_only = sv[-1] <= 1e-9 * sv[0]
+                    replay['gram_singular_values_min_max'] = [float(sv[-1]), float(sv[0])]
+                    ctx.fail('hierarchy-lu-not-rank-revealing' if lu_only else 'hierarchy-unsound',
+                             f'has_rank_hierarchical_method(rank={rank}, k={k}) certifies a {dA}x{dB} subspace (dim {N}, {"complex" if cplx else "real"}) containing an element of rank {rank - 1}'
+                             + (f'; the Gram matrix is singular (sigma_min/sigma_max={sv[-1] / sv[0]:.1e}) but min|diag U| of its LU factor exceeds zero_eps' if lu_only else '; the Gram matrix of the linear system is not singular'), replay)
                 else:
                     ctx.probe_ok(('hier', dA, dB, N, rank, k, cplx))
     # non-vacuity: the certificate is issued on the literature examples
@@ -889,7 +912,12 @@ def probe_planted(ctx):
                 except Exception as e:
                     ctx.fail('abc-exception', f'is_ABC_completely_entangled_subspace raised {type(e).__name__}: {e}', replay); continue
                 if res:
-                    ctx.fail('abc-unsound', f'is_ABC_completely_entangled_subspace(k={k}) certifies a {dA}x{dB}x{dC} subspace (dim {N}) containing a product vector', replay)
+                    G = _abc_gram(list(q), k)
+                    sv = np.linalg.svd(G, compute_uv=False) if G is not None else None
+                    lu_only = sv is not None and sv[-1] <= 1e-9 * sv[0]
+                    ctx.fail('abc-lu-not-rank-revealing' if lu_only else 'abc-unsound',
+                             f'is_ABC_completely_entangled_subspace(k={k}) certifies a {dA}x{dB}x{dC} subspace (dim {N}) containing a product vector'
+                             + ('; the Gram matrix is singular but min|diag U| of its LU factor exceeds zero_eps' if lu_only else ''), replay)
                 else:
                     ctx.probe_ok(('abc', dA, dB, dC, N, k, cplx))
 
